@@ -4,6 +4,7 @@ Requests:
   `c17 <topic hex> <op>:<ver>:<off>:<hwm> <body hex> <k> <next body hex> => <res> <next> <deliver>`
       model: the operation of Model/ConnOps.lean on the stream `(frame 1 body).take k` (then EOF); for k = frame length the
       stream continues with the follow-up list-offsets frame.  `next` = outcome of a list-offsets operation afterwards.
+  `c17raw <answer hex> <k> <next body hex> => <res> <next>`   the un-framed sasl token answer ([int32 len][bytes]) cut at k.
   `c2 <topic hex> <A>:<ver>:<off>:<hwm> <bodyA hex> <B>:… <bodyB hex> <k> => <resA> <resB>`   two callers with both requests
       in flight on ONE Conn, the response stream lost after k bytes: nobody may hang (read lock released on every exit).
   `lo <cut timestamp|none> <true first> <true last> <frame len> <k> => <call> <first> <last> <error code>`   one
@@ -156,6 +157,22 @@ def step (line : String) : String :=
         | none, _ => "bad-op"
         | _, none => "bad-frame: body is not an encoding of the Spec layout"
       | _, _, _, _ => "bad-args"
+    | ["c17raw", hr, ks, hn] =>
+      match ofHex hr, ks.toNat?, ofHex hn with
+      | some resp, some k, some nb =>
+        -- the un-framed token answer cut after k bytes; then a framed list-offsets exchange (id 1: the raw exchange
+        -- has no correlation id; ApiVersions was the Conn's request 1, so the follow-up is request 2)
+        let (ra, left) := rawToken (resp.take k)
+        let stream := if k ≥ resp.length then left ++ frame 2 nb else left
+        match runInstL false [116] ⟨"listOffsets", 1, 0, 0, nb⟩ (⟨stream, 2, false⟩, false) with
+        | some (rn, _) =>
+          let cut := k < resp.length
+          let h := match words impl with
+            | [res, next] => res != "panic" && res != "hang" && (if cut then isFailStr res && isFailStr next else res == "ok")
+            | _ => false
+          s!"model={showOutcome ra} {showOutcome rn} holds={if h then 1 else 0}"
+        | none => "bad-op"
+      | _, _, _ => "bad-args"
     | ["c2", t, sa, ha, sb, hb, ks] =>
       match ofHex t, parseInst sa ha, parseInst sb hb, ks.toNat? with
       | some topic, some a, some b, some k =>
